@@ -232,8 +232,33 @@ func encINITVoteproof(rt *rapid.T, point base.Point, mode string, prev, proposal
 		voters := encSubset(rt, "voters", 1, encNodes, nil)
 		fact := isaac.NewINITBallotFact(point, prev, proposal, nil)
 
-		return encVP{VP: gen.FullINITVoteproof(fact, encLocals(voters), th, nil), Kind: "init-voteproof", Valid: true, Majority: fact,
-			Desc: fmt.Sprintf("majority v%s th%v", encIdxString(voters), th)}
+		// minority votes for another fact, at drawn positions among the sign facts (also first): a voteproof keeps whatever order
+		// the ballotbox collected its sign facts in
+		used := map[int]bool{}
+		for _, v := range voters {
+			used[v] = true
+		}
+
+		minority := encSubset(rt, "minority", 0, 2, used)
+		if len(minority) < 1 {
+			return encVP{VP: gen.FullINITVoteproof(fact, encLocals(voters), th, nil), Kind: "init-voteproof", Valid: true, Majority: fact,
+				Desc: fmt.Sprintf("majority v%s th%v", encIdxString(voters), th)}
+		}
+
+		sfs := make([]base.BallotSignFact, 0, len(voters)+len(minority))
+		for _, v := range voters {
+			sfs = append(sfs, gen.SignINIT(fact, gen.Local(v)))
+		}
+
+		other := isaac.NewINITBallotFact(point, prev, gen.H("minority-proposal"), nil)
+		for _, v := range minority {
+			sfs = append(sfs, gen.SignINIT(other, gen.Local(v)))
+		}
+
+		sfs = rapid.Permutation(sfs).Draw(rt, "signFactOrder")
+
+		return encVP{VP: gen.INITVoteproof(point, fact, sfs, th, nil), Kind: "init-voteproof", Valid: true, Majority: fact,
+			Desc: fmt.Sprintf("majority v%s minority v%s th%v", encIdxString(voters), encIdxString(minority), th)}
 	}
 }
 
@@ -276,8 +301,31 @@ func encACCEPTVoteproof(rt *rapid.T, point base.Point, mode string, proposal, ne
 		voters := encSubset(rt, "voters", 1, encNodes, nil)
 		fact := isaac.NewACCEPTBallotFact(point, proposal, newblock, nil)
 
-		return encVP{VP: gen.FullACCEPTVoteproof(fact, encLocals(voters), th, nil), Kind: "accept-voteproof", Valid: true, Majority: fact,
-			Desc: fmt.Sprintf("majority v%s th%v", encIdxString(voters), th)}
+		used := map[int]bool{}
+		for _, v := range voters {
+			used[v] = true
+		}
+
+		minority := encSubset(rt, "minority", 0, 2, used)
+		if len(minority) < 1 {
+			return encVP{VP: gen.FullACCEPTVoteproof(fact, encLocals(voters), th, nil), Kind: "accept-voteproof", Valid: true, Majority: fact,
+				Desc: fmt.Sprintf("majority v%s th%v", encIdxString(voters), th)}
+		}
+
+		sfs := make([]base.BallotSignFact, 0, len(voters)+len(minority))
+		for _, v := range voters {
+			sfs = append(sfs, gen.SignACCEPT(fact, gen.Local(v)))
+		}
+
+		other := isaac.NewACCEPTBallotFact(point, proposal, gen.H("minority-block"), nil)
+		for _, v := range minority {
+			sfs = append(sfs, gen.SignACCEPT(other, gen.Local(v)))
+		}
+
+		sfs = rapid.Permutation(sfs).Draw(rt, "signFactOrder")
+
+		return encVP{VP: gen.ACCEPTVoteproof(point, fact, sfs, th, nil), Kind: "accept-voteproof", Valid: true, Majority: fact,
+			Desc: fmt.Sprintf("majority v%s minority v%s th%v", encIdxString(voters), encIdxString(minority), th)}
 	}
 }
 
